@@ -1394,6 +1394,13 @@ pub fn emit(prop: &str, g: &mut Gen, out: &mut Vec<String>) {
             push(out, format!("cli @0 {}", hexargs(&args)).trim_end().to_string());
         }
         "C19" => {
+            if g.rng.chance(1, 3) {
+                // "never crashes" also on the command lines a user would type: options that select a
+                // calendar and arguments that are valid for it, aimed at the days that matter in it
+                g.hit("cli:well-formed");
+                let like = if g.rng.chance(1, 2) { "C18" } else { "C20" };
+                return emit(like, g, out);
+            }
             let n = g.rng.below(7);
             let mut toks: Vec<Vec<u8>> = Vec::new();
             if g.rng.chance(1, 60) {
